@@ -76,6 +76,11 @@ fn render_def(d: &J) -> J {
         "fixed" => {
             obj.insert("type".into(), J::from("fixed"));
             obj.insert("size".into(), d["size"].clone());
+            // convention of this harness: a fixed of size 12 stands for a NAMED LOGICAL type (duration), so that
+            // named logical types take part in multi-schema parsing; the model treats it like any named type
+            if d["size"].as_u64() == Some(12) {
+                obj.insert("logicalType".into(), J::from("duration"));
+            }
         }
         "wrap" => {
             obj.insert("type".into(), render_def(&d["inner"]));
@@ -120,6 +125,7 @@ fn project(sc: &Schema) -> J {
         Schema::Enum(e) => json!({"k":"enum","name":e.name.fullname(None),"symbols":e.symbols}),
         Schema::Fixed(f) => json!({"k":"fixed","name":f.name.fullname(None),"size":small(f.size)}),
         Schema::Ref { name } => json!({"k":"ref","name":name.fullname(None)}),
+        Schema::Duration(f) => json!({"k":"fixed","name":f.name.fullname(None),"size":small(f.size)}),
         other => json!({"k":"other","text":format!("{other:?}")}),
     }
 }
@@ -290,6 +296,9 @@ fn value_gen(rng: &mut Rng, t: &J, env: &HashMap<String, J>, fuel: usize) -> Opt
             None
         }
         "other" | "none" => None,
+        // (harness convention: a fixed of size 12 is a duration; the model's schema term calls it a fixed, so no
+        // datum is exchanged for schemas that contain it -- the parse-level clauses are what it is there for)
+        "fixed" if t["size"].as_u64() == Some(12) => None,
         _ => Some(value_for(rng, t, env, 1)),
     }
 }
